@@ -251,7 +251,7 @@ CLAIMED.update({
         "design_ref": "DESIGN.md 4.17",
         "technique": "Coq proof by induction on fuel / nesting depth with tag-dispatch lemmas; correspondence by extracted "
                      "OCaml model; purity by differential observation of the caller's objects",
-        "note": "4 theorems closed under the global context. vmc_std / vmc_envelope (VmControlData, save lists) are not in the "
+        "note": "6 theorems closed under the global context (incl. slice values denoting a window of their cell, as foreign writers emit them). vmc_std / vmc_envelope (VmControlData, save lists) are not in the "
                 "model: they are checked on the implementation against the schema written out by hand (F19 repaired).",
     },
 })
